@@ -100,6 +100,8 @@ def constDenote {V} (sem : Sem V) (n : Node) : Option V :=
     | [("value", .tensor t)] => some (sem.tensor t)
     | [("value_ints", .ints l)] => some (sem.intsTensor l)
     | [("value_int", .int i)] => some (sem.intTensor i)
+    | [("value", .ints l)] => some (sem.intsTensor l)   -- the same integers as a tensor-valued attribute (below opset 12)
+    | [("value", .int i)] => some (sem.intTensor i)
     | _ => none
   else none
 
